@@ -151,6 +151,12 @@ def make_case(rng, L, d, dtype, sectors, herm, force1, Dmax=3, kind='main'):
     q_psi = _reach_bonds(rng, L, qd, _dims(rng, L, Dmax, force1), 0, None, pw)
     q_chi = _reach_bonds(rng, L, qd, _dims(rng, L, Dmax, force1), 0, q_psi[L][0] + delta, pw)
     q_rho = _reach_bonds(rng, L, diffs, _dims(rng, L, Dmax, force1), -q_op[0][0] if L else 0, -q_op[L][0] if L else 0, pw)
+    if sectors and rng.random() < 0.4:
+        # the block-sparsity rule only sees charge differences: shift all bond charges of bra and ket by independent
+        # constants, so that leading and trailing charges differ between them while the total charge still matches
+        sa, sb = rng.choice([-2, -1, 0, 1, 3]), rng.choice([-2, -1, 1, 3])
+        q_psi = [[q + sa for q in r] for r in q_psi]
+        q_chi = [[q + sb for q in r] for r in q_chi]
     if not sectors:
         q_op = [[0] * len(r) for r in q_op]; q_psi = [[0] * len(r) for r in q_psi]
         q_chi = [[0] * len(r) for r in q_chi]; q_rho = [[0] * len(r) for r in q_rho]
